@@ -287,7 +287,7 @@ func c02(c *ctx) {
 	apis := []string{"MaskFrame", "MaskFrameWith", "MaskFrameInPlace", "MaskFrameInPlaceWith", "UnmaskFrame", "UnmaskFrameInPlace"}
 	for ln := 0; ln <= 40; ln++ {
 		for ai, api := range apis {
-			for rep := 0; rep < 5; rep++ {
+			for rep := 0; rep < 8; rep++ {
 				key := fmt.Sprintf("frame/%s/%d/%d", api, ln, rep)
 				if !vh.Only(key) {
 					continue
@@ -295,7 +295,7 @@ func c02(c *ctx) {
 				var k, inmask [4]byte
 				rng.Read(k[:])
 				rng.Read(inmask[:])
-				if rep >= 2 { // special keys: all zero (a legal mask: the frame is still a masked frame), one bit, all ones
+				if rep >= 2 && rep < 5 { // special keys: all zero (a legal mask: the frame is still a masked frame), one bit, all ones
 					k = [][4]byte{{0, 0, 0, 0}, {0, 0, 0, 1}, {0xff, 0xff, 0xff, 0xff}}[rep-2]
 					inmask = k
 				}
@@ -303,6 +303,11 @@ func c02(c *ctx) {
 				rng.Read(p)
 				caller := append([]byte(nil), p...)
 				f := ws.Frame{Header: ws.Header{Fin: rep%2 == 0, Rsv: byte(ln % 8), OpCode: ws.OpCode(ai), Length: int64(ln)}, Payload: caller}
+				if rep >= 5 {
+					// hand-built frames: the helpers work on the payload slice
+					// whatever the header's length field says
+					f.Header.Length = []int64{0, int64(ln / 2), int64(ln + 5)}[rep-5]
+				}
 				if api == "UnmaskFrame" || api == "UnmaskFrameInPlace" {
 					f.Header.Masked = true
 					f.Header.Mask = inmask
